@@ -300,6 +300,27 @@ def gen(item, rng, tier):
                 c['regs']['cpsr'] ^= 0x20
                 c['events'] = [e for e in c['events'] if e['tick'] < len(c['words'])]
             cores.append(c)
+        if regime == 'same' and rng.random() < 0.3:
+            # configuration files that are the same in everything the processor consults at run time and differ in the memory they declare: every
+            # RAM of every instance is declared in its file's memory_list (the library builds the hub), each instance has a window of its own that the
+            # others lack, and all the processors are CONSTRUCTED first and loaded afterwards, when their turn to run comes
+            for i, c in enumerate(cores):
+                own = {'kind': 'ram', 'begin': 0x60000 + 0x2000 * i, 'end': 0x60000 + 0x2000 * i + rng.choice([0x1000, 0x800, 0x2000])}
+                G.set_data(own, 0, bytes(rng.getrandbits(8) for _ in range(64)))
+                devs = [own] + c['devices']
+                for d in devs:
+                    if d.get('kind', 'ram') == 'ram':
+                        d['in_config'] = True
+                cfgi = dict(c['config'])
+                cfgi['memory_list'] = [{'mem_type': 'RAM', 'beginning': d['begin'], 'end': d['end']} for d in devs if d.get('in_config')]
+                c['config'] = cfgi
+                c['devices'] = [d for d in devs if d.get('in_config')] + [d for d in devs if not d.get('in_config')]
+                c['defer_setup'] = True
+                if c.get('force') and c['force'].get('ptr_regs'):
+                    c['force']['ptr_regs'] = c['force']['ptr_regs'] + [own['begin'], own['begin'] + 4, own['begin'] + 0x7FC]
+                else:
+                    for nme in rng.sample(['R0usr', 'R1usr', 'R2usr', 'R3usr', 'R4usr', 'R5usr', 'R6usr', 'R7usr', 'SPusr', 'SPsvc'], 4):
+                        c['regs']['R'][nme] = own['begin'] + 4 * rng.randrange(0, 64)
         style, acts = _schedule(rng, n, [len(c['words']) for c in cores])
         return {'scenario': 'interleave', 'regime': regime, 'style': style, 'cores': cores, 'actions': acts, 'image_load': rng.random() < 0.4}
     if item['k'] == 'longhaul':
@@ -429,7 +450,11 @@ def _interleaved_part(arg):
         if regime == 'mixed+switch':
             M.point_global_config_at(cores[i]['config'])
             count('fault.cfg-switch')
-        if b.advance():
+        try:
+            adv = b.advance()
+        except M.ConstructionMismatch as e:
+            return {'stats': stats, 'ticks': 0, 'busy': 0, 'digest': 'construction', 'mismatch': {'i': i, 't': 0, 'len_got': 0, 'len_want': len(want[i]), 'state': None, 'op': 'construction: %s' % e}}
+        if adv:
             traces[i].append(_state(b))
             ops[i].append(type(b.cores[0].arm.executed_opcode).__name__)
     ticks = 0
@@ -482,7 +507,7 @@ def run_interleave(case):
                 i, n, t, mm['op'], ', '.join('%s solo=%r interleaved=%r' % (k, st[t].get(k), mm['state'].get(k)) for k in diff[:4]))
         else:
             diff = ['length']
-            detail = 'instance %d: trace length %d vs solo %d' % (i, mm['len_got'], mm['len_want'])
+            detail = 'instance %d: trace length %d vs solo %d (%s)' % (i, mm['len_got'], mm['len_want'], mm.get('op'))
         if regime == 'mixed':
             site, cls = 'regime=mixed', 'config_singleton'
         else:
